@@ -1438,27 +1438,66 @@ Qed.
 
 End Clauses.
 
-(* within the guards a well-formed, lexically sound schema is compiled (whatever `recovers`), and what
+(* within the guards a well-formed, lexically sound schema is compiled (whatever the flags), and what
    is handed out passes the validation model *)
-Theorem compile16_compiles_proved r a :
+Theorem compile16_compiles_proved r ck a :
   appdef_max_ident_len = 255%N -> wf a = true -> lexical a = true -> no_unique_collision a Go = true ->
   guards (compile_items a Go) = true ->
-  compile16_with r a = VCompiled (compile_items a Go) /\ builder_valid (compile_items a Go) = true.
+  compile16_with r ck a = VCompiled (compile_items a Go) /\ builder_valid (compile_items a Go) = true.
 Proof.
   intros Hmax Hwf Hlex Hc Hg. pose proof (builder_valid_proved a Go Hwf Hlex Hc Hmax Hg) as Hv.
   unfold compile16_with. rewrite Hwf, Hc, Hv. auto.
 Qed.
 
-Theorem compile16_accepts_valid_proved r a d : compile16_with r a = VCompiled d -> builder_valid d = true /\ wf a = true.
+Theorem compile16_accepts_valid_proved r ck a d : compile16_with r ck a = VCompiled d -> builder_valid d = true /\ wf a = true.
 Proof.
-  unfold compile16_with, refused. destruct (wf a) eqn:E; [|discriminate].
+  unfold compile16_with, refused. destruct (wf a) eqn:E; [|destruct (wf_p a ck); discriminate].
   destruct (no_unique_collision a Go && builder_valid (compile_items a Go)) eqn:Ev; [|destruct r; discriminate].
   intros H. inversion H; subst. apply andb_true_iff in Ev. tauto.
 Qed.
 
 (* with the recover in buildAppDefs the compiler model never panics, on any schema *)
-Theorem compile16_total_proved : parser_recovers_builder_panics = true -> forall a, compile16 a <> VPanic.
+Theorem compile16_total_proved ck : forall a, compile16_with true ck a <> VPanic.
 Proof.
-  intros Hr a. unfold compile16, compile16_with, refused. rewrite Hr.
-  destruct (wf a); [|discriminate]. destruct (no_unique_collision a Go && builder_valid (compile_items a Go)); discriminate.
+  intros a. unfold compile16_with, refused.
+  destruct (wf a); [|destruct (wf_p a ck); discriminate].
+  destruct (no_unique_collision a Go && builder_valid (compile_items a Go)); discriminate.
+Qed.
+
+(* when the analyser checks both rules itself, its rules are the language's rules (`wf`), so the
+   model never hands out a definition that builder.Build() refuses *)
+Lemma view_ok_p_all a p w v : view_ok_p a (PChecks true true) p w v = view_ok a p w v.
+Proof. reflexivity. Qed.
+Lemma grant_ok_p_all a p w g : grant_ok_p a (PChecks true true) p w g = grant_ok a p w g.
+Proof. unfold grant_ok_p, grant_ok. destruct (g_what g) as [ | | | | | | | [|] | | ]; reflexivity. Qed.
+Lemma stmt_ok_p_all a p w i : stmt_ok_p a (PChecks true true) p w i = stmt_ok a p w i.
+Proof. destruct i; cbn [stmt_ok_p stmt_ok]; auto using view_ok_p_all, grant_ok_p_all. Qed.
+Lemma forallb_ext' {A} (f g : A -> bool) l : (forall x, f x = g x) -> forallb f l = forallb g l.
+Proof. intros H. induction l; cbn; auto. rewrite H, IHl. auto. Qed.
+Lemma ws_ok_p_all a p w : ws_ok_p a (PChecks true true) p w = ws_ok a p w.
+Proof. reflexivity. Qed.
+Lemma wf_p_all a : wf_p a (PChecks true true) = wf a.
+Proof. reflexivity. Qed.
+
+Theorem compile16_never_invalid_proved r a : compile16_with r (PChecks true true) a <> VInvalid.
+Proof.
+  unfold compile16_with, refused. rewrite wf_p_all. destruct (wf a); [|discriminate].
+  destruct (no_unique_collision a Go && builder_valid (compile_items a Go)); destruct r; discriminate.
+Qed.
+
+Theorem compile16_total_flag : parser_recovers_builder_panics = true -> forall a, compile16 a <> VPanic.
+Proof. intros Hr a. unfold compile16. rewrite Hr. apply compile16_total_proved. Qed.
+
+Theorem wf_chains_end_proved a : wf a = true -> forall p w, In_ws a p w ->
+  (exists l, ws_anc a (fuelw a) (p_name p) (w_inh w) = Some l)
+  /\ forall t, In (ITable t) (w_items w) ->
+     (exists b ls, Chain a (p_name p) t b ls)
+     /\ forall t', In t' (nested_tables t) -> t_inh t' <> None -> exists b ls, Chain a (p_name p) t' b ls.
+Proof.
+  intros Hwf p w Hpw. split.
+  - pose proof (wf_anc_ok a Hwf p w Hpw) as H. destruct (ws_anc a (fuelw a) (p_name p) (w_inh w)) as [l|]; [eauto | congruence].
+  - intros t Hi. destruct (wf_chains_ok a Hwf p w t Hpw Hi) as [Hc Hn]. split.
+    + destruct (chain a (fuel0 a) (p_name p) t) as [[b ls]|] eqn:Ec; [|congruence]. exists b, ls. eapply chain_sound; eauto.
+    + intros t' Ht' Hinh. specialize (Hn t' Ht' Hinh).
+      destruct (chain a (fuel0 a) (p_name p) t') as [[b ls]|] eqn:Ec; [|congruence]. exists b, ls. eapply chain_sound; eauto.
 Qed.
